@@ -25,7 +25,7 @@ CLAIMED = {
         "DESIGN.md §4 C04",
     ),
     "C05": (
-        "Model-based stateful property testing on the real vault (created through the real vault factory, native or cw20 asset) with four users and a programmable borrower contract: generated histories of deposits, withdrawals, deposit-then-withdraw, flash loans with generated callback programs (incl. re-entrant and nested), router loans, collections, fee changes and donations; after every step the assets backing one share (balance - pending fees)/supply are compared exactly, deposits mint <= pro-rata, withdrawals pay <= pro-rata, the first deposit's 1000 shares stay locked in the vault, rejected steps leave the world snapshot unchanged. Exploration with shrinking to minimal histories. The nested-loan fee recovery is a listed known finding whose signature bounds the shortfall.",
+        "Model-based stateful property testing on the real vault (created through the real vault factory, native or cw20 asset) with four users and a programmable borrower contract: generated histories of deposits, withdrawals, deposit-then-withdraw, flash loans with generated callback programs (incl. re-entrant and nested), router loans, collections, fee changes and donations; after every step the assets backing one share (balance - pending fees)/supply are compared exactly, deposits mint <= pro-rata, withdrawals pay <= pro-rata, the first deposit's 1000 shares stay locked in the vault, rejected steps leave the world snapshot unchanged. Exploration with shrinking to minimal histories. The nested-loan fee recovery is a listed known finding whose signature bounds the shortfall. The alphabet includes the adversarial direct Withdraw {} message with a native coin attached (nobody is paid without giving up shares) and a borrower step that forges the vault's internal callback.",
         "Trusts cw-multi-test 0.16.5 as the chain. Token-factory LP not exercised. A contract panic counts as a rejected transaction.",
         "stateful / model-based property testing (proptest histories + per-step invariant oracle)",
         "DESIGN.md §4 C05",
@@ -73,7 +73,7 @@ CLAIMED = {
         "DESIGN.md §4 C11",
     ),
     "C12": (
-        "Model-ledger stateful testing of the real incentive contract (created through the real incentive factory; cw20 or native LP; reward assets native and cw20; creation fee in another native denom, another cw20 or the reward asset itself): generated histories of flow openings with exact / fee-only / short / over-paid / missing funds and default or explicit epochs (incl. > 180), expansions by creator or others, closes by creator / factory owner / stranger, positions, snapshots, epoch advances and claims. The reference ledger outstanding[flow] is built only from transfers the harness observes and must equal funded - claimed read from the contract's raw storage after every step; the fee must reach the collector; balances cover the sum of outstanding; closing pays exactly outstanding to the creator and is refused to strangers. Flows may start in the past; new epochs come with or without a snapshot; one case in ten starts with the directed 'gap in the emission record' shape.",
+        "Model-ledger stateful testing of the real incentive contract (created through the real incentive factory; cw20 or native LP; reward assets native and cw20; creation fee in another native denom, another cw20 or the reward asset itself): generated histories of flow openings with exact / fee-only / short / over-paid / missing funds and default or explicit epochs (incl. > 180), expansions by creator or others, closes by creator / factory owner / stranger, positions, snapshots, epoch advances and claims. The reference ledger outstanding[flow] is built only from transfers the harness observes and must equal funded - claimed read from the contract's raw storage after every step; the fee must reach the collector; balances cover the sum of outstanding; closing pays exactly outstanding to the creator and is refused to strangers. Flows may start in the past; new epochs come with or without a snapshot; one case in ten starts with the directed 'gap in the emission record' shape. Flows may carry a unique label and be expanded / closed by label instead of id.",
         "Flows are read from raw storage because the Flow/Flows queries trim histories to 100 epochs. Epoch clock = the repository's fee-distributor mock. Reward assets distinct from the LP asset here (LP-asset flows are in C11).",
         "stateful property testing with an explicit reference ledger built from observed transfers",
         "DESIGN.md §4 C12",
@@ -91,7 +91,7 @@ CLAIMED = {
         "DESIGN.md §4 C14",
     ),
     "C15": (
-        "Four searches: (a) assert_max_spread (package) and (b) both deposit slippage assertions (pair constant-product + stableswap, trio; through the hook) with generated inputs placed on, one and two units around, and far from every threshold, for max_spread / tolerance in {None, 0, 1% -/+ 1e-18, 50% -/+ 1e-18, 1, >1, random}, judged by an exact-rational three-way oracle (forced accept / forced reject / either inside the 18-decimal granularity band); (c) live constant-product and stableswap pairs: every limited swap that succeeds must satisfy the realised bound computed from its actual amounts, and a limited swap that is rejected is re-executed without the limit in the same state - if that lands strictly inside the bound it is a violation; (d) router routes (1..3 hops, receivers with pre-existing balances) with minimum_receive = simulated amount + {-3..3, far}: success => receiver delta >= minimum, delivery >= minimum => not rejected (checked by re-executing without the minimum). (e) live deposits into constant-product pairs with the first asset's amount placed on / around the exact threshold of the ratio test and the assets listed in the pool's or the opposite order, judged by the same three-way reference from the reported reserves.",
+        "Four searches: (a) assert_max_spread (package) and (b) both deposit slippage assertions (pair constant-product + stableswap, trio; through the hook) with generated inputs placed on, one and two units around, and far from every threshold, for max_spread / tolerance in {None, 0, 1% -/+ 1e-18, 50% -/+ 1e-18, 1, >1, random}, judged by an exact-rational three-way oracle (forced accept / forced reject / either inside the 18-decimal granularity band); (c) live constant-product and stableswap pairs: every limited swap that succeeds must satisfy the realised bound computed from its actual amounts, and a limited swap that is rejected is re-executed without the limit in the same state - if that lands strictly inside the bound it is a violation; (d) router routes (1..3 hops, receivers with pre-existing balances) with minimum_receive = simulated amount + {-3..3, far}: success => receiver delta >= minimum, delivery >= minimum => not rejected (checked by re-executing without the minimum). (e) live deposits into constant-product pairs with the first asset's amount placed on / around the exact threshold of the ratio test and the assets listed in the pool's or the opposite order, judged by the same three-way reference from the reported reserves. (f) the same live spread rule on the three-asset pool in all six directions.",
         "Band = Decimal floors at 18 places; belief-price rule judged only where offer/p and 1/p fit the contract's types. Package-level mutations are visible because the harness patches white-whale-std to /repo/packages.",
         "property-based testing with a three-way exact-rational oracle on dense boundary inputs + differential live checks",
         "DESIGN.md §4 C15",
